@@ -1,1 +1,224 @@
 //! Verification hooks for the pure gossipsub component checks (only with `--cfg libp2p_verif`).
+//!
+//! Everything in here is a visibility shim: re-exports of crate-private types, 1:1 method
+//! wrappers around crate-private components, constructors for values whose type cannot be named
+//! from outside, and read accessors. No logic under test is re-implemented here.
+
+use std::{collections::HashSet, time::Duration};
+
+use asynchronous_codec::Framed;
+use futures::{AsyncRead, AsyncWrite, FutureExt};
+use libp2p_core::{InboundUpgrade, verif_clock::Instant};
+use libp2p_identity::PeerId;
+
+pub use crate::{handler::HandlerEvent, protocol::GossipsubCodec};
+use crate::{
+    Behaviour, Config, DataTransform, MessageId, PublishError, RawMessage, TopicHash,
+    TopicSubscriptionFilter, ValidationError,
+    backoff::BackoffStorage,
+    mcache::MessageCache,
+    time_cache::DuplicateCache,
+    types::{ControlAction, PeerKind, SubscriptionAction},
+};
+
+// ---------------------------------------------------------------------------------------------
+// codec
+
+/// The inbound substream exactly as the connection handler gets it: the real `ProtocolConfig`
+/// of `cfg` run through the real `InboundUpgrade` (which builds the `GossipsubCodec`).
+pub fn framed_inbound<S>(cfg: &Config, socket: S) -> Framed<S, GossipsubCodec>
+where
+    S: AsyncRead + AsyncWrite + Unpin + Send + 'static,
+{
+    let protocol = cfg.protocol_config();
+    let id = protocol.protocol_ids[0].clone();
+    let (framed, _kind) = protocol
+        .upgrade_inbound(socket, id)
+        .now_or_never()
+        .expect("upgrade future is ready")
+        .expect("upgrade is infallible");
+    framed
+}
+
+/// The codec alone, with the parameters the upgrade would pass for `cfg`.
+pub fn codec_for(cfg: &Config) -> GossipsubCodec {
+    framed_inbound(cfg, futures::io::Cursor::new(Vec::new()))
+        .into_parts()
+        .codec
+}
+
+/// Publicly typed view of a decoded RPC (the control/subscription types have crate-private
+/// fields).
+#[derive(Debug, Clone, Default)]
+pub struct RpcSummary {
+    pub messages: Vec<RawMessage>,
+    pub invalid: Vec<(RawMessage, ValidationError)>,
+    /// (subscribe?, topic)
+    pub subscriptions: Vec<(bool, TopicHash)>,
+    pub ihave: Vec<(TopicHash, Vec<MessageId>)>,
+    pub iwant: Vec<Vec<MessageId>>,
+    pub graft: Vec<TopicHash>,
+    /// (topic, number of px peers, backoff)
+    pub prune: Vec<(TopicHash, usize, Option<u64>)>,
+    pub idontwant: Vec<Vec<MessageId>>,
+}
+
+/// Read accessor: `None` if the event is not `HandlerEvent::Message`.
+pub fn summarize(ev: &HandlerEvent) -> Option<RpcSummary> {
+    let HandlerEvent::Message {
+        rpc,
+        invalid_messages,
+    } = ev
+    else {
+        return None;
+    };
+    let mut s = RpcSummary {
+        messages: rpc.messages.clone(),
+        invalid: invalid_messages.clone(),
+        subscriptions: rpc
+            .subscriptions
+            .iter()
+            .map(|s| {
+                (
+                    s.action == SubscriptionAction::Subscribe,
+                    s.topic_hash.clone(),
+                )
+            })
+            .collect(),
+        ..Default::default()
+    };
+    for c in &rpc.control_msgs {
+        match c {
+            ControlAction::IHave(m) => s.ihave.push((m.topic_hash.clone(), m.message_ids.clone())),
+            ControlAction::IWant(m) => s.iwant.push(m.message_ids.clone()),
+            ControlAction::Graft(m) => s.graft.push(m.topic_hash.clone()),
+            ControlAction::Prune(m) => {
+                s.prune
+                    .push((m.topic_hash.clone(), m.peers.len(), m.backoff))
+            }
+            ControlAction::IDontWant(m) => s.idontwant.push(m.message_ids.clone()),
+            ControlAction::Extensions(_) => {}
+        }
+    }
+    Some(s)
+}
+
+/// Constructor for the handler's "negotiated protocol" event:
+/// 0 NotSupported, 1 Floodsub, 2 Gossipsub 1.0, 3 v1.1, 4 v1.2, anything else v1.3.
+pub fn peer_kind_event(kind: u8) -> HandlerEvent {
+    HandlerEvent::PeerKind(match kind {
+        0 => PeerKind::NotSupported,
+        1 => PeerKind::Floodsub,
+        2 => PeerKind::Gossipsub,
+        3 => PeerKind::Gossipsubv1_1,
+        4 => PeerKind::Gossipsubv1_2,
+        _ => PeerKind::Gossipsubv1_3,
+    })
+}
+
+// ---------------------------------------------------------------------------------------------
+// behaviour
+
+/// The real publish path's message construction (signing included).
+pub fn build_raw_message<D, F>(
+    b: &mut Behaviour<D, F>,
+    topic: TopicHash,
+    data: Vec<u8>,
+) -> Result<RawMessage, PublishError>
+where
+    D: DataTransform + Send + 'static,
+    F: TopicSubscriptionFilter + Send + 'static,
+{
+    b.build_raw_message(topic, data)
+}
+
+/// Runs one heartbeat now (the timer-driven one in `poll` is the same call).
+pub fn heartbeat<D, F>(b: &mut Behaviour<D, F>)
+where
+    D: DataTransform + Send + 'static,
+    F: TopicSubscriptionFilter + Send + 'static,
+{
+    b.verif_pure_heartbeat()
+}
+
+// ---------------------------------------------------------------------------------------------
+// BackoffStorage
+
+pub struct Backoff(BackoffStorage);
+
+impl Backoff {
+    pub fn new(prune_backoff: Duration, heartbeat_interval: Duration, backoff_slack: u32) -> Self {
+        Backoff(BackoffStorage::new(
+            &prune_backoff,
+            heartbeat_interval,
+            backoff_slack,
+        ))
+    }
+    pub fn update_backoff(&mut self, topic: &TopicHash, peer: &PeerId, time: Duration) {
+        self.0.update_backoff(topic, peer, time)
+    }
+    pub fn is_backoff_with_slack(&self, topic: &TopicHash, peer: &PeerId) -> bool {
+        self.0.is_backoff_with_slack(topic, peer)
+    }
+    pub fn get_backoff_time(&self, topic: &TopicHash, peer: &PeerId) -> Option<Instant> {
+        self.0.get_backoff_time(topic, peer)
+    }
+    pub fn heartbeat(&mut self) {
+        self.0.heartbeat()
+    }
+}
+
+// ---------------------------------------------------------------------------------------------
+// DuplicateCache
+
+pub struct DupCache(DuplicateCache<MessageId>);
+
+impl DupCache {
+    pub fn new(ttl: Duration) -> Self {
+        DupCache(DuplicateCache::new(ttl))
+    }
+    pub fn insert(&mut self, key: MessageId) -> bool {
+        self.0.insert(key)
+    }
+    pub fn contains(&self, key: &MessageId) -> bool {
+        self.0.contains(key)
+    }
+}
+
+// ---------------------------------------------------------------------------------------------
+// MessageCache
+
+pub struct MCache(MessageCache);
+
+impl MCache {
+    pub fn new(gossip: usize, history_capacity: usize) -> Self {
+        MCache(MessageCache::new(gossip, history_capacity))
+    }
+    pub fn put(&mut self, message_id: &MessageId, msg: RawMessage) -> bool {
+        self.0.put(message_id, msg)
+    }
+    pub fn observe_duplicate(&mut self, message_id: &MessageId, source: &PeerId) {
+        self.0.observe_duplicate(message_id, source)
+    }
+    pub fn get_with_iwant_counts(
+        &mut self,
+        message_id: &MessageId,
+        peer: &PeerId,
+    ) -> Option<(RawMessage, u32)> {
+        self.0
+            .get_with_iwant_counts(message_id, peer)
+            .map(|(m, c)| (m.clone(), c))
+    }
+    pub fn validate(&mut self, message_id: &MessageId) -> Option<(RawMessage, HashSet<PeerId>)> {
+        self.0.validate(message_id).map(|(m, p)| (m.clone(), p))
+    }
+    pub fn get_gossip_message_ids(&self, topic: &TopicHash) -> Vec<MessageId> {
+        self.0.get_gossip_message_ids(topic)
+    }
+    pub fn shift(&mut self) {
+        self.0.shift()
+    }
+    pub fn remove(&mut self, message_id: &MessageId) -> Option<(RawMessage, HashSet<PeerId>)> {
+        self.0.remove(message_id)
+    }
+}
